@@ -111,13 +111,31 @@ def check_name(j, v, viol, tag):
         viol.add('name_from_fields', 'Name(**fields of %016X).value == %016X' % (want, n3.value), **tag)
     if bytes(n3.bytes) != C.name_bytes(want):
         viol.add('name_bytes', 'Name(**fields).bytes mismatch for %016X' % want, **tag)
+    # history: a NAME that has been read (value and bytes) and is then changed through ONE field property must describe the new NAME
+    # consistently in its fields, value and bytes
+    k, sh, w = C.NAME_FIELDS[(v ^ (v >> 17)) % len(C.NAME_FIELDS)]
+    if k != 'reserved_bit':
+        newv = (f[k] + 1 + (v >> 7) % ((1 << w) - 1 or 1)) % (1 << w)
+        setattr(n, k, newv)
+        want2 = (want & ~(((1 << w) - 1) << sh)) | (newv << sh)
+        got2 = {kk: getattr(n, kk) for kk, _, _ in C.NAME_FIELDS}
+        if n.value != want2 or bytes(n.bytes) != C.name_bytes(want2) or got2 != C.name_fields(want2):
+            viol.add('name_after_set', 'Name(value=%016X) after .%s = %d: value %016X bytes %s, expected %016X / %s'
+                     % (v, k, newv, n.value, bytes(n.bytes).hex(), want2, C.name_bytes(want2).hex()), field=k, **tag)
+        # and the other way round: assigning value / bytes to a NAME built from fields
+        n3.value = want2
+        if bytes(n3.bytes) != C.name_bytes(want2) or getattr(n3, k) != newv:
+            viol.add('name_after_set', 'Name(**fields of %016X) after .value = %016X: bytes %s field %s = %r' % (want, want2, bytes(n3.bytes).hex(), k, getattr(n3, k)), field='value', **tag)
+        n2.bytes = list(C.name_bytes(want2))
+        if n2.value != want2 or getattr(n2, k) != newv:
+            viol.add('name_after_set', 'Name(bytes=..) after .bytes = %s: value %016X field %s = %r' % (C.name_bytes(want2).hex(), n2.value, k, getattr(n2, k)), field='bytes', **tag)
 
 
 def run_case(case):
     j = load_j1939()
     viol = M.Violations()
     tag = dict(layer='codec')
-    obs = dict(identifiers_checked=0, names_checked=0, arbitration_contests=0, pgn_objects_checked=0)
+    obs = dict(identifiers_checked=0, names_checked=0, arbitration_contests=0, mixed_order_contests=0, pgn_objects_checked=0)
     kind = case['kind']
     rng = random.Random(case['seed'])
     sample = dict(case=case)
@@ -231,6 +249,42 @@ def run_case(case):
                             viol.add('arbitration_order', 'CA with NAME %016X defended against %016X and then kept its address against the lower NAME %016X: state %r, frames %s'
                                      % (mine, other, third, ca.state, [f.brief() for f in W.bus.frames[n1:]]), how='history', **tag)
                     node.ecu.remove_ca(addr)
+        # NAME pairs that differ in SEVERAL bytes, in particular with the order of their low (first transmitted) bytes opposite to the numeric
+        # order of the 64-bit values: arbitration is the comparison of the values, nothing else
+        for t in range(60 * case['backgrounds']):
+            mine = rng.getrandbits(64) & ~RES
+            if t % 3 == 0:
+                other = rng.getrandbits(64) & ~RES
+            else:
+                # flip the comparison of one high byte against that of one low byte
+                hb, lb = rng.randrange(4, 8), rng.randrange(0, 4)
+                other = mine
+                d_hi = rng.choice([1, -1])
+                hv = ((mine >> (8 * hb)) & 0xFF) + d_hi
+                lv = ((mine >> (8 * lb)) & 0xFF) - d_hi * rng.randint(1, 100)
+                if not (0 <= hv <= 255 and 0 <= lv <= 255):
+                    continue
+                other = (mine & ~(0xFF << (8 * hb)) & ~(0xFF << (8 * lb))) | (hv << (8 * hb)) | (lv << (8 * lb))
+                other &= ~RES
+            if other == mine:
+                continue
+            aac = mine >> 63
+            ca = W.ca(node, addr, name_value=mine, bypass=True)
+            n0 = len(W.bus.frames)
+            node.on_frame(Frame(-1, W.sim.now, 'X', C.make_id(6, 0, C.PF_ADDRESS_CLAIM, 255, addr), C.name_bytes(other)))
+            sent = W.bus.frames[n0:]
+            obs['arbitration_contests'] += 1
+            obs['mixed_order_contests'] = obs.get('mixed_order_contests', 0) + 1
+            if mine < other:
+                ok = ca.state == ST.NORMAL and ca.device_address == addr and len(sent) == 1 and sent[0].data == C.name_bytes(mine)
+            elif aac:
+                ok = ca.state == ST.WAIT_VETO
+            else:
+                ok = ca.state == ST.CANNOT_CLAIM
+            if not ok:
+                viol.add('arbitration_order', 'CA with NAME %016X against contender %016X (several bytes differ, own is %s): state %r, frames %s'
+                         % (mine, other, 'lower' if mine < other else 'higher', ca.state, [f.brief() for f in sent]), how='mixed_order', **tag)
+            node.ecu.remove_ca(addr)
         W.close()
     sig = repr(sorted((k, v) for k, v in case.items() if k not in ('id',)))
     return dict(violations=list(viol), inconclusive=None, sig=sig, nontrivial=True, obs=obs, sample=sample)
